@@ -50,7 +50,10 @@ class Oracle:
             elif fut.result() != proc.outputs:
                 w.violate('finished:future-differs-from-outputs', f(), (repr(fut.result()), repr(proc.outputs)))
             last = [t for t in w.trace if t[3] == 'enter']
-            if last:
+            if last and not w.program:  # a work chain of the barrier family: finishes with None after its last step
+                if proc.result() is not None or not proc.successful() or last[-1][0] != 's3':
+                    w.violate('finished:result', f(term='workchain'), (repr(proc.result()), proc.successful(), last[-1][0]))
+            elif last:
                 idx = int(last[-1][0][1:])
                 term = w.program[idx][2]
                 if term in FINAL_RESULT:
@@ -74,6 +77,7 @@ class Oracle:
                 if got is not exc:
                     w.violate('excepted:result-raises-other', f(), repr(got))
             known = list(w.raised) + [r.get('exc') for r in w.calls if r['op'] == 'fail']
+            known += list(getattr(w, 'item_errors', {}).values())
             if exc not in known:
                 w.violate('excepted:not-the-original-exception', f(exc=type(exc).__name__), repr(exc))
             if proc.killed() or proc.is_successful:
@@ -157,7 +161,48 @@ def units_for(tier: str) -> List[Any]:
     return units
 
 
+WC_ALPHABET = (('pause',), ('play',), ('kill', 't1'), ('kill', 't2'))
+
+
+def wc_cfg(unit: Any) -> ctl.Config:
+    return ctl.Config(alphabet=WC_ALPHABET, closing=('gates', 'play'))
+
+
+def wc_factory() -> CtlProperty:
+    from .. import wcharness
+    return CtlProperty(ID, Oracle, wc_cfg, cls_for=wcharness.cls_for, world_cls=wcharness.WcWorld)
+
+
+def wc_units(tier: str) -> List[Any]:
+    import itertools
+    units: List[Any] = []
+    for n in (1, 2):
+        for items in itertools.product((('gate', 'ok'), ('gate', 'exc'), ('child', 'ok'), ('child', 'exc')), repeat=n):
+            units.append(((items, 'return' if n == 1 else 'both', False), None))
+    return units
+
+
+def is_wc_unit(unit: Any) -> bool:
+    try:
+        return unit[0][0][0][0] in ('gate', 'child')
+    except Exception:  # noqa: BLE001
+        return False
+
+
 def run_check(tier: str, seed: int, workers: Any) -> Dict[str, Any]:
+    part1 = run_processes(tier, seed, workers)
+    budget = {'K': 2, 'J': 2} if tier == 'quick' else {'K': 3, 'J': 2}
+    part2 = runner.run_explorer(
+        wc_factory, (), wc_units(tier), budget, seed, workers,
+        rule='work chains awaiting 1-2 loop futures / launched children (succeeding or failing) under every placement of <=K '
+             'requests from ' + repr(WC_ALPHABET) + ' and <=J early completions; same agreement oracle',
+        assumptions=[], bounds=dict(budget, n_items=2), describe=lambda u: {'items': u[0][0], 'how': u[0][1]})
+    for v in part2['violations']:
+        v['features'] = dict(v.get('features', {}), part='workchain')
+    return runner.merge([part1, part2])
+
+
+def run_processes(tier: str, seed: int, workers: Any) -> Dict[str, Any]:
     budget = {'K': 2, 'J': 1} if tier == 'quick' else {'K': 3, 'J': 1}
     return runner.run_explorer(
         factory, (), units_for(tier), budget, seed, workers,
@@ -169,4 +214,8 @@ def run_check(tier: str, seed: int, workers: Any) -> Dict[str, Any]:
         bounds=dict(budget, program_len=3), describe=describe_unit)
 
 
-replay = PROP.replay
+def replay(doc: Dict[str, Any]) -> List[Dict[str, Any]]:
+    from ..cli import to_tuple
+    if is_wc_unit(to_tuple(doc['unit'])):
+        return wc_factory().replay(doc)
+    return PROP.replay(doc)
